@@ -3,6 +3,7 @@
 -/
 import PgVerif.Model.Wal
 import PgVerif.Spec.Wal
+import PgVerif.Spec.WalLayout
 namespace PgVerif.Proofs.Wal
 open PgVerif PgVerif.Model.Wal
 
@@ -241,5 +242,838 @@ theorem getRecent_total (dir : Dir) (limit : Int) (h : 0 ≤ limit) : ∃ r, get
   split
   · rw [if_neg (by omega)]; exact ⟨_, rfl⟩
   · exact ⟨_, rfl⟩
+
+/-! ## The page loop as a pure function; per-page independence (DESIGN.md B.8) -/
+
+/-- what parseWALPage contributes to the result of ParseWALFile (an error return = skipped page = nothing) -/
+def pageRecs (pg : Bytes) : List Record :=
+  match parseWALPage pg with
+  | .ok (some rs) => rs
+  | _ => []
+
+def pagesPure (data : Bytes) : Nat → Nat → List Record
+  | 0, _ => []
+  | fuel+1, off =>
+    if off + 8192 ≤ data.length then pageRecs ((data.take (off + 8192)).drop off) ++ pagesPure data fuel (off + 8192)
+    else []
+
+theorem pagesLoop_eq (data : Bytes) (fuel off : Nat) : pagesLoop data fuel off = .ok (pagesPure data fuel off) := by
+  induction fuel generalizing off with
+  | zero => rfl
+  | succ fuel ih =>
+    unfold pagesLoop pagesPure
+    split
+    · rename_i hc
+      rw [slice_ok data off (off + 8192) hc (by omega)]
+      simp only [ok_bind]
+      obtain ⟨r, hr⟩ := parseWALPage_total ((data.take (off + 8192)).drop off)
+      simp only [hr, ih, ok_bind, pure_eq_ok, pageRecs]
+      cases r <;> rfl
+    · rfl
+
+/-- all records of a file: the page loop with the fuel ParseWALFile gives it -/
+def fileRecs (data : Bytes) : List Record := pagesPure data (data.length / 8192 + 1) 0
+
+theorem parseWALFile_eq (data : Bytes) :
+    parseWALFile data = .ok (if data.length < 40 then none else some (fileRecs data)) := by
+  unfold parseWALFile
+  split
+  · rfl
+  · simp only [pagesLoop_eq, ok_bind, pure_eq_ok, fileRecs]
+
+theorem pagesPure_append_right (a b : Bytes) (o fuel : Nat) :
+    pagesPure (a ++ b) fuel (a.length + o) = pagesPure b fuel o := by
+  induction fuel generalizing o with
+  | zero => rfl
+  | succ fuel ih =>
+    simp only [pagesPure, List.length_append]
+    by_cases h : o + 8192 ≤ b.length
+    · rw [if_pos (by omega), if_pos h]
+      have hd : ((a ++ b).take (a.length + o + 8192)).drop (a.length + o) = (b.take (o + 8192)).drop o := by
+        rw [show a.length + o + 8192 = a.length + (o + 8192) by omega, List.take_length_add_append,
+          List.drop_length_add_append]
+      rw [hd, show a.length + o + 8192 = a.length + (o + 8192) by omega, ih]
+    · rw [if_neg (by omega), if_neg h]
+
+theorem pagesPure_fuel (data : Bytes) (o f1 f2 : Nat) (h1 : (data.length - o) / 8192 < f1)
+    (h2 : (data.length - o) / 8192 < f2) : pagesPure data f1 o = pagesPure data f2 o := by
+  induction f1 generalizing o f2 with
+  | zero => exact absurd h1 (Nat.not_lt_zero _)
+  | succ f1 ih =>
+    cases f2 with
+    | zero => exact absurd h2 (Nat.not_lt_zero _)
+    | succ f2 =>
+      simp only [pagesPure]
+      by_cases h : o + 8192 ≤ data.length
+      · rw [if_pos h, if_pos h]
+        congr 1
+        have : (data.length - (o + 8192)) / 8192 + 1 = (data.length - o) / 8192 := by
+          have : data.length - o = (data.length - (o + 8192)) + 8192 := by omega
+          rw [this, Nat.add_div_right _ (by decide : 0 < 8192)]
+        exact ih (o + 8192) f2 (by omega) (by omega)
+      · rw [if_neg h, if_neg h]
+
+theorem pagesPure_append_left (a b : Bytes) (k fuel f2 : Nat) (ha : a.length = (k + fuel) * 8192) :
+    pagesPure (a ++ b) (fuel + f2) (k * 8192) = pagesPure a fuel (k * 8192) ++ pagesPure (a ++ b) f2 a.length := by
+  induction fuel generalizing k with
+  | zero =>
+    simp only [pagesPure, List.nil_append, Nat.zero_add]
+    rw [ha]; simp
+  | succ fuel ih =>
+    rw [show fuel + 1 + f2 = (fuel + f2) + 1 by omega]
+    simp only [pagesPure, List.length_append]
+    have hle : k * 8192 + 8192 ≤ a.length := by omega
+    rw [if_pos (by omega), if_pos hle]
+    have htk : ((a ++ b).take (k * 8192 + 8192)).drop (k * 8192) = (a.take (k * 8192 + 8192)).drop (k * 8192) := by
+      rw [List.take_append_of_le_length hle]
+    rw [htk, show k * 8192 + 8192 = (k + 1) * 8192 by omega,
+      ih (k + 1) (by rw [ha]; congr 1; omega), List.append_assoc]
+
+/-- reading `a ++ b` for a page-aligned `a` = reading `a`, then reading `b` -/
+theorem fileRecs_append (a b : Bytes) (n : Nat) (ha : a.length = n * 8192) :
+    fileRecs (a ++ b) = fileRecs a ++ fileRecs b := by
+  unfold fileRecs
+  have h1 : pagesPure (a ++ b) ((a ++ b).length / 8192 + 1) 0 = pagesPure (a ++ b) (n + (b.length / 8192 + 1)) 0 := by
+    apply pagesPure_fuel
+    · simp only [Nat.sub_zero]; omega
+    · simp only [Nat.sub_zero, List.length_append, ha]
+      rw [Nat.add_comm (n * 8192), Nat.add_mul_div_right _ _ (by decide : 0 < 8192)]; omega
+  have h2 := pagesPure_append_left a b 0 n (b.length / 8192 + 1) (by simpa using ha)
+  rw [Nat.zero_mul] at h2
+  rw [h1, h2]
+  have h3 := pagesPure_append_right a b 0 (b.length / 8192 + 1)
+  rw [show a.length + 0 = a.length from rfl] at h3
+  rw [h3]
+  congr 1
+  have h4 := pagesPure_append_left a [] 0 n 1 (by simpa using ha)
+  rw [List.append_nil, Nat.zero_mul] at h4
+  have h5 : pagesPure a 1 a.length = [] := by
+    simp only [pagesPure]; rw [if_neg (by omega)]
+  rw [h5, List.append_nil] at h4
+  rw [← h4, ha, Nat.mul_div_cancel _ (by decide : 0 < 8192)]
+
+/-! ## Reading fields of an encoded record -/
+
+theorem uN_mid (n v : Nat) (pre rest : Bytes) (k : Nat) (hk : k = pre.length) (h : v < 256 ^ n) :
+    uN n (pre ++ (le n v ++ rest)) k = .ok v := by
+  subst hk
+  rw [uN_ok _ _ _ (by simp)]
+  simp only [List.drop_left']
+  rw [rd_le n v rest h]
+
+theorem idx_mid (pre rest : Bytes) (b : UInt8) (k : Nat) (hk : k = pre.length) :
+    idx (pre ++ (b :: rest)) k = .ok b := by
+  subst hk
+  unfold idx
+  simp
+
+theorem ofNat_toNat (v : Nat) (h : v < 256) : (UInt8.ofNat v).toNat = v := by
+  simp [UInt8.toNat_ofNat']; omega
+theorem bimg_rule : ∀ x < 256, ((x &&& 0x01 != 0) && (x &&& 0x02 != 0)) = Spec.Wal.compressHdr14 x ∧
+    ((x &&& 0x01 != 0) && (x &&& 0x1C != 0)) = Spec.Wal.compressHdr15 x := by decide +kernel
+
+/-! ## The block-reference walk on an encoded record body -/
+
+open PgVerif.Spec.Wal (optBytes encImageHdr encRel encBlockHdr encBlockData)
+
+def relM (r : Spec.Wal.RelFileNode) : RelFileNode := ⟨r.spc, r.db, r.rel⟩
+
+def optImageLen : Option Spec.Wal.Image → Nat
+  | some i => i.data.length
+  | none => 0
+
+theorem optBytes_le2_length (o : Option Nat) : (optBytes (le 2) o).length = if o.isSome then 2 else 0 := by
+  cases o <;> simp [optBytes]
+
+theorem encImageHdr_length (i : Spec.Wal.Image) : (encImageHdr i).length = 5 + if i.holeLength.isSome then 2 else 0 := by
+  simp [encImageHdr, optBytes_le2_length]; omega
+
+theorem afterImage_enc (i : Spec.Wal.Image) (hi : i.WF) (pre rest : Bytes) (p15 : Bool) :
+    afterImage (pre ++ (encImageHdr i ++ rest)) p15 pre.length = .ok (pre.length + (encImageHdr i).length) := by
+  obtain ⟨_, _, hb, h14, h15, _⟩ := hi
+  unfold afterImage
+  have hd : pre ++ (encImageHdr i ++ rest) =
+      (pre ++ (le 2 i.data.length ++ le 2 i.holeOffset)) ++
+        (UInt8.ofNat i.bimgInfo :: (optBytes (le 2) i.holeLength ++ rest)) := by
+    simp [encImageHdr, List.append_assoc]
+  rw [hd, idx_mid _ _ _ _ (by simp)]
+  simp only [ok_bind, pure_eq_ok, ofNat_toNat _ hb]
+  have h1 := (bimg_rule i.bimgInfo hb).1
+  have h2 := (bimg_rule i.bimgInfo hb).2
+  rw [encImageHdr_length]
+  congr 1
+  cases p15
+  · simp only [Bool.false_eq_true, if_false, h2, h15]
+    cases i.holeLength <;> simp <;> omega
+  · simp only [if_true, h1, h14]
+    cases i.holeLength <;> simp <;> omega
+
+theorem imagePart_enc (img : Option Spec.Wal.Image) (himg : ∀ i ∈ img, i.WF) (pre rest : Bytes) (p15 : Bool)
+    (ff dt : Nat) (hff : (ff &&& 0x10 != 0) = img.isSome) :
+    imagePart (pre ++ (optBytes encImageHdr img ++ rest)) p15 ff pre.length dt =
+      .ok (some (pre.length + (optBytes encImageHdr img).length, dt + optImageLen img)) := by
+  unfold imagePart
+  cases img with
+  | none => simp [hff, optBytes, optImageLen]
+  | some i =>
+    have hi := himg i rfl
+    have hlen := encImageHdr_length i
+    rw [hff]
+    simp only [Option.isSome_some, if_true]
+    split
+    · rename_i hc
+      simp only [optBytes, List.length_append] at hc
+      omega
+    · simp only [optBytes, optImageLen]
+      rw [afterImage_enc i hi]
+      have hd : pre ++ (encImageHdr i ++ rest) = pre ++ (le 2 i.data.length ++ (le 2 i.holeOffset ++
+          (UInt8.ofNat i.bimgInfo :: (optBytes (le 2) i.holeLength ++ rest)))) := by
+        simp [encImageHdr, List.append_assoc]
+      rw [hd, uN_mid 2 _ _ _ _ rfl (by have := hi.1; omega)]
+      rfl
+
+def relOf (rel : Option Spec.Wal.RelFileNode) (last : Option RelFileNode) : Option RelFileNode :=
+  match rel with
+  | some r => some (relM r)
+  | none => last
+
+theorem relPart_enc (rel : Option Spec.Wal.RelFileNode) (hrel : ∀ r ∈ rel, r.WF) (pre rest : Bytes)
+    (ff : Nat) (last : Option RelFileNode) (hff : (ff &&& 0x80 == 0) = rel.isSome) :
+    relPart (pre ++ (optBytes encRel rel ++ rest)) ff pre.length last =
+      .ok (some (relOf rel last, pre.length + (optBytes encRel rel).length)) := by
+  unfold relPart
+  cases rel with
+  | none => simp [hff, optBytes, relOf]
+  | some r =>
+    obtain ⟨h1, h2, h3⟩ := hrel r rfl
+    rw [hff]
+    simp only [Option.isSome_some, if_true]
+    split
+    · rename_i hc
+      simp only [optBytes, encRel, List.length_append, le_length] at hc
+      omega
+    · simp only [optBytes, relOf, encRel]
+      have hd1 : pre ++ (le 4 r.spc ++ le 4 r.db ++ le 4 r.rel ++ rest) = pre ++ (le 4 r.spc ++ (le 4 r.db ++ le 4 r.rel ++ rest)) := by
+        simp [List.append_assoc]
+      have hd2 : pre ++ (le 4 r.spc ++ le 4 r.db ++ le 4 r.rel ++ rest) = (pre ++ le 4 r.spc) ++ (le 4 r.db ++ (le 4 r.rel ++ rest)) := by
+        simp [List.append_assoc]
+      have hd3 : pre ++ (le 4 r.spc ++ le 4 r.db ++ le 4 r.rel ++ rest) = (pre ++ le 4 r.spc ++ le 4 r.db) ++ (le 4 r.rel ++ rest) := by
+        simp [List.append_assoc]
+      rw [show uN 4 (pre ++ (le 4 r.spc ++ le 4 r.db ++ le 4 r.rel ++ rest)) pre.length = .ok r.spc by
+            rw [hd1]; exact uN_mid 4 _ _ _ _ rfl (by omega),
+          show uN 4 (pre ++ (le 4 r.spc ++ le 4 r.db ++ le 4 r.rel ++ rest)) (pre.length + 4) = .ok r.db by
+            rw [hd2]; exact uN_mid 4 _ _ _ _ (by simp) (by omega),
+          show uN 4 (pre ++ (le 4 r.spc ++ le 4 r.db ++ le 4 r.rel ++ rest)) (pre.length + 8) = .ok r.rel by
+            rw [hd3]; exact uN_mid 4 _ _ _ _ (by simp) (by omega)]
+      simp [relM]
+
+
+theorem imagePart_enc' (img : Option Spec.Wal.Image) (himg : ∀ i ∈ img, i.WF) (pre rest : Bytes) (p15 : Bool)
+    (ff dt : Nat) (hff : (ff &&& 0x10 != 0) = img.isSome) (k : Nat) (hk : k = pre.length) :
+    imagePart (pre ++ (optBytes encImageHdr img ++ rest)) p15 ff k dt =
+      .ok (some (k + (optBytes encImageHdr img).length, dt + optImageLen img)) := by
+  subst hk; exact imagePart_enc img himg pre rest p15 ff dt hff
+
+theorem relPart_enc' (rel : Option Spec.Wal.RelFileNode) (hrel : ∀ r ∈ rel, r.WF) (pre rest : Bytes)
+    (ff : Nat) (last : Option RelFileNode) (hff : (ff &&& 0x80 == 0) = rel.isSome) (k : Nat) (hk : k = pre.length) :
+    relPart (pre ++ (optBytes encRel rel ++ rest)) ff k last =
+      .ok (some (relOf rel last, k + (optBytes encRel rel).length)) := by
+  subst hk; exact relPart_enc rel hrel pre rest ff last hff
+
+def mkFF (fork : Nat) (i d w s : Bool) : Nat :=
+  fork + (if i then 0x10 else 0) + (if d then 0x20 else 0) + (if w then 0x40 else 0) + (if s then 0x80 else 0)
+
+theorem ff_bits : ∀ fork < 16, ∀ i d w s : Bool,
+    mkFF fork i d w s < 256 ∧ (mkFF fork i d w s &&& 0x10 != 0) = i ∧ (mkFF fork i d w s &&& 0x80 == 0) = !s ∧
+    mkFF fork i d w s &&& 0x0F = fork := by decide +kernel
+
+theorem forkFlags_eq (b : Spec.Wal.BlockRef) :
+    b.forkFlags = mkFF b.fork b.image.isSome b.data.isSome b.willInit b.rel.isNone := rfl
+
+def blockM (b : Spec.Wal.BlockRef) (last : Option RelFileNode) : BlockRef :=
+  ⟨b.id, b.fork, b.forkFlags, relOf b.rel last, b.blkno⟩
+
+theorem encBlockHdr_length (b : Spec.Wal.BlockRef) :
+    (encBlockHdr b).length = 4 + (optBytes encImageHdr b.image).length + (optBytes encRel b.rel).length + 4 := by
+  simp [encBlockHdr]; omega
+
+theorem blockStep_enc (b : Spec.Wal.BlockRef) (hb : b.WF) (pre rest : Bytes) (p15 : Bool) (dt : Nat)
+    (last : Option RelFileNode) :
+    blockStep (pre ++ (encBlockHdr b ++ rest)) p15 pre.length dt last =
+      .ok (some ⟨blockM b last, pre.length + (encBlockHdr b).length,
+                 dt + (b.data.getD []).length + optImageLen b.image, relOf b.rel last⟩) := by
+  obtain ⟨hid, hfork, himg, hdata, hrel, hblk⟩ := hb
+  obtain ⟨hff, hffi, hffs, hfff⟩ := ff_bits b.fork hfork b.image.isSome b.data.isSome b.willInit b.rel.isNone
+  rw [← forkFlags_eq] at hff hffi hffs hfff
+  have hdl : (b.data.getD []).length < 256 ^ 2 := by
+    cases hd : b.data with
+    | none => simp
+    | some d => have := (hdata d (by simp [hd])).2; simpa using (by omega : d.length < 256 ^ 2)
+  -- the same byte string, bracketed at each field in turn
+  let t3 := optBytes encRel b.rel ++ (le 4 b.blkno ++ rest)
+  let t2 := optBytes encImageHdr b.image ++ t3
+  have e0 : pre ++ (encBlockHdr b ++ rest) =
+      pre ++ (UInt8.ofNat b.id :: (UInt8.ofNat b.forkFlags :: (le 2 (b.data.getD []).length ++ t2))) := by
+    simp [encBlockHdr, List.append_assoc, t2, t3]
+  have e1 : pre ++ (encBlockHdr b ++ rest) =
+      (pre ++ [UInt8.ofNat b.id]) ++ (UInt8.ofNat b.forkFlags :: (le 2 (b.data.getD []).length ++ t2)) := by
+    rw [e0]; simp
+  have e2 : pre ++ (encBlockHdr b ++ rest) =
+      (pre ++ [UInt8.ofNat b.id, UInt8.ofNat b.forkFlags]) ++ (le 2 (b.data.getD []).length ++ t2) := by
+    rw [e0]; simp
+  have e3 : pre ++ (encBlockHdr b ++ rest) =
+      (pre ++ [UInt8.ofNat b.id, UInt8.ofNat b.forkFlags] ++ le 2 (b.data.getD []).length) ++ (optBytes encImageHdr b.image ++ t3) := by
+    rw [e0]; simp [t2]
+  have e4 : pre ++ (encBlockHdr b ++ rest) =
+      (pre ++ [UInt8.ofNat b.id, UInt8.ofNat b.forkFlags] ++ le 2 (b.data.getD []).length ++ optBytes encImageHdr b.image) ++
+        (optBytes encRel b.rel ++ (le 4 b.blkno ++ rest)) := by
+    rw [e0]; simp [t2, t3]
+  have e5 : pre ++ (encBlockHdr b ++ rest) =
+      (pre ++ [UInt8.ofNat b.id, UInt8.ofNat b.forkFlags] ++ le 2 (b.data.getD []).length ++ optBytes encImageHdr b.image ++
+        optBytes encRel b.rel) ++ (le 4 b.blkno ++ rest) := by
+    rw [e0]; simp [t2, t3]
+  unfold blockStep
+  rw [show idx (pre ++ (encBlockHdr b ++ rest)) pre.length = .ok (UInt8.ofNat b.id) by rw [e0]; exact idx_mid _ _ _ _ rfl]
+  simp only [ok_bind, ofNat_toNat b.id (by omega)]
+  rw [if_neg (by omega)]
+  rw [show idx (pre ++ (encBlockHdr b ++ rest)) (pre.length + 1) = .ok (UInt8.ofNat b.forkFlags) by
+        rw [e1]; exact idx_mid _ _ _ _ (by simp)]
+  simp only [ok_bind, ofNat_toNat b.forkFlags hff]
+  rw [show uN 2 (pre ++ (encBlockHdr b ++ rest)) (pre.length + 2) = .ok (b.data.getD []).length by
+        rw [e2]; exact uN_mid 2 _ _ _ _ (by simp) hdl]
+  simp only [ok_bind]
+  rw [show imagePart (pre ++ (encBlockHdr b ++ rest)) p15 b.forkFlags (pre.length + 4) (dt + (b.data.getD []).length) =
+        .ok (some (pre.length + 4 + (optBytes encImageHdr b.image).length, dt + (b.data.getD []).length + optImageLen b.image)) by
+      rw [e3]
+      exact imagePart_enc' b.image himg _ t3 p15 b.forkFlags (dt + (b.data.getD []).length) hffi _ (by simp)]
+  simp only [ok_bind]
+  rw [show relPart (pre ++ (encBlockHdr b ++ rest)) b.forkFlags (pre.length + 4 + (optBytes encImageHdr b.image).length) last =
+        .ok (some (relOf b.rel last, pre.length + 4 + (optBytes encImageHdr b.image).length + (optBytes encRel b.rel).length)) by
+      rw [e4]
+      exact relPart_enc' b.rel hrel _ (le 4 b.blkno ++ rest) b.forkFlags last (by rw [hffs]; cases b.rel <;> rfl) _
+        (by simp; omega)]
+  simp only [ok_bind]
+  have hl := encBlockHdr_length b
+  rw [if_neg (by simp only [List.length_append]; omega)]
+  rw [show uN 4 (pre ++ (encBlockHdr b ++ rest)) (pre.length + 4 + (optBytes encImageHdr b.image).length + (optBytes encRel b.rel).length) =
+        .ok b.blkno by
+      rw [e5]; exact uN_mid 4 _ _ _ _ (by simp; omega) (by omega)]
+  simp only [ok_bind, pure_eq_ok, hfff, blockM, hl]
+  congr 3
+  omega
+
+
+/-- what the walk reports for a list of block references, `last` = the relation in force before them -/
+def viewsM : Option RelFileNode → List Spec.Wal.BlockRef → List BlockRef
+  | _, [] => []
+  | last, b :: bs => blockM b last :: viewsM (relOf b.rel last) bs
+
+def blockBytes (b : Spec.Wal.BlockRef) : Nat := (b.data.getD []).length + optImageLen b.image
+
+/-- the bytes after the last block header make the walk stop: nothing but the announced data is left, or
+they start with an id above 32 -/
+def Stops (rest : Bytes) (dt : Nat) : Prop :=
+  rest.length ≤ dt ∨ ∃ b t, rest = b :: t ∧ b.toNat > 32
+
+theorem blockLoop_stop (pre rest : Bytes) (p15 : Bool) (fuel dt : Nat) (last : Option RelFileNode)
+    (hs : Stops rest dt) : blockLoop (pre ++ rest) p15 fuel pre.length dt last = .ok [] := by
+  cases fuel with
+  | zero => rfl
+  | succ fuel =>
+    unfold blockLoop
+    split
+    · rename_i hc
+      rcases hs with hs | ⟨b, t, rfl, hb⟩
+      · simp only [List.length_append] at hc; omega
+      · unfold blockStep
+        rw [idx_mid _ _ _ _ rfl]
+        simp only [ok_bind]
+        rw [if_pos hb]
+        rfl
+    · rfl
+
+theorem blockLoop_enc (bs : List Spec.Wal.BlockRef) (hbs : ∀ b ∈ bs, b.WF) (pre rest : Bytes) (p15 : Bool)
+    (fuel dt : Nat) (last : Option RelFileNode) (hfuel : bs.length ≤ fuel)
+    (hroom : dt + (bs.map blockBytes).sum ≤ rest.length) (hs : Stops rest (dt + (bs.map blockBytes).sum)) :
+    blockLoop (pre ++ (bs.flatMap encBlockHdr ++ rest)) p15 fuel pre.length dt last = .ok (viewsM last bs) := by
+  induction bs generalizing pre fuel dt last with
+  | nil =>
+    simp only [List.flatMap_nil, List.nil_append, viewsM]
+    simp only [List.map_nil, List.sum_nil, Nat.add_zero] at hs
+    exact blockLoop_stop pre rest p15 fuel dt last hs
+  | cons b bs ih =>
+    cases fuel with
+    | zero => simp at hfuel
+    | succ fuel =>
+      simp only [List.map_cons, List.sum_cons] at hroom hs
+      have hl := encBlockHdr_length b
+      have hbb : blockBytes b = (b.data.getD []).length + optImageLen b.image := rfl
+      unfold blockLoop
+      rw [if_pos (by simp only [List.flatMap_cons, List.length_append]; omega)]
+      simp only [List.flatMap_cons, List.append_assoc]
+      rw [blockStep_enc b (hbs b (by simp)) pre _ p15 dt last]
+      simp only [ok_bind]
+      have := ih (fun b' hb' => hbs b' (by simp [hb'])) (pre ++ encBlockHdr b) fuel
+        (dt + (b.data.getD []).length + optImageLen b.image) (relOf b.rel last) (by simpa using hfuel)
+        (by omega) (by rw [show dt + (b.data.getD []).length + optImageLen b.image + (bs.map blockBytes).sum = dt + (blockBytes b + (bs.map blockBytes).sum) by omega]; exact hs)
+      rw [List.length_append, List.append_assoc] at this
+      rw [this]
+      rfl
+
+
+theorem blockData_length (bs : List Spec.Wal.BlockRef) :
+    (bs.flatMap encBlockData).length = (bs.map blockBytes).sum := by
+  induction bs with
+  | nil => rfl
+  | cons b bs ih =>
+    simp only [List.flatMap_cons, List.length_append, List.map_cons, List.sum_cons, ih, blockBytes, encBlockData]
+    cases b.image <;> simp [optBytes, optImageLen] <;> omega
+
+theorem blockHdrs_length (bs : List Spec.Wal.BlockRef) : bs.length ≤ (bs.flatMap encBlockHdr).length := by
+  induction bs with
+  | nil => simp
+  | cons b bs ih =>
+    have := encBlockHdr_length b
+    simp only [List.flatMap_cons, List.length_append, List.length_cons]; omega
+
+/-- the bytes that follow the block headers in a record body -/
+def bodyRest (r : Spec.Wal.WalRecord) : Bytes :=
+  optBytes (fun o => 253 :: le 2 o) r.origin ++ (optBytes (fun x => 252 :: le 4 x) r.topXid ++
+    (Spec.Wal.encMainHdr r.mainData ++ (r.blocks.flatMap encBlockData ++ r.mainData)))
+
+theorem encBody_eq (r : Spec.Wal.WalRecord) :
+    Spec.Wal.encBody r = [] ++ (r.blocks.flatMap encBlockHdr ++ bodyRest r) := by
+  simp [Spec.Wal.encBody, Spec.Wal.encHeaders, bodyRest, List.append_assoc]
+
+theorem bodyRest_stops (r : Spec.Wal.WalRecord) : Stops (bodyRest r) ((r.blocks.map blockBytes).sum) := by
+  unfold bodyRest
+  cases ho : r.origin with
+  | some o => right; exact ⟨253, _, rfl, by decide⟩
+  | none =>
+    cases ht : r.topXid with
+    | some x => right; exact ⟨252, _, rfl, by decide⟩
+    | none =>
+      cases hm : r.mainData with
+      | nil =>
+        left
+        simp only [optBytes, Spec.Wal.encMainHdr, List.isEmpty_nil, if_true, List.nil_append, List.append_nil,
+          blockData_length]
+        exact Nat.le_refl _
+      | cons m ms =>
+        right
+        simp only [optBytes, Spec.Wal.encMainHdr, List.nil_append, List.isEmpty_cons, Bool.false_eq_true, if_false]
+        by_cases hl : (m :: ms).length ≤ 255
+        · rw [if_pos hl]; exact ⟨255, _, rfl, by decide⟩
+        · rw [if_neg hl]; exact ⟨254, _, rfl, by decide⟩
+
+theorem bodyRest_room (r : Spec.Wal.WalRecord) : (r.blocks.map blockBytes).sum ≤ (bodyRest r).length := by
+  simp only [bodyRest, List.length_append, blockData_length]; omega
+
+/-- The block-reference walk on the body of any record with well-formed block references reports exactly
+those references (resolved relations), for both bimg_info conventions. -/
+theorem parseBlockRefsFor_enc (r : Spec.Wal.WalRecord) (hb : ∀ b ∈ r.blocks, b.WF) (magic : Nat) :
+    parseBlockRefsFor (Spec.Wal.encBody r) magic = .ok (viewsM none r.blocks) := by
+  unfold parseBlockRefsFor
+  have h := blockLoop_enc r.blocks hb [] (bodyRest r) (decide (magic < 0xD110)) (Spec.Wal.encBody r).length 0 none
+    (by rw [encBody_eq]; have := blockHdrs_length r.blocks; simp only [List.nil_append, List.length_append]; omega)
+    (by have := bodyRest_room r; omega) (by rw [Nat.zero_add]; exact bodyRest_stops r)
+  rw [← encBody_eq] at h
+  exact h
+
+def relS (r : RelFileNode) : Spec.Wal.RelFileNode := ⟨r.spc, r.db, r.rel⟩
+
+/-- a reported block reference as a Spec view -/
+def viewOfM (b : BlockRef) : Spec.Wal.BlockView := ⟨b.id, b.forkNum, b.flags, b.rel.map relS, b.blockNum⟩
+
+theorem viewsM_views (last : Option RelFileNode) (bs : List Spec.Wal.BlockRef) :
+    (viewsM last bs).map viewOfM = Spec.Wal.blockViews (last.map relS) bs := by
+  induction bs generalizing last with
+  | nil => rfl
+  | cons b bs ih =>
+    simp only [viewsM, List.map_cons, Spec.Wal.blockViews, ih]
+    cases hr : b.rel <;> simp [viewOfM, blockM, relOf, hr, relS, relM]
+
+open PgVerif.Spec.Wal (encRecHeader encBody encRecord pad8)
+
+/-! ## parseXLogRecord on an encoded record -/
+
+/-- what must be reported for record `r` found at `lsn`, with the given block references -/
+def recM (lsn : Nat) (r : Spec.Wal.WalRecord) (blocks : List BlockRef) : Record :=
+  { totalLen := r.totLen, xid := r.xid, prev := r.prev, info := r.info, rmid := r.rmid, crc := r.crc, lsn,
+    rmName := rmgrName r.rmid, operation := operationName r.rmid r.info, blocks }
+
+theorem encRecHeader_length (r : Spec.Wal.WalRecord) : (encRecHeader r).length = 24 := by
+  simp [encRecHeader]
+
+theorem totLen_ge (r : Spec.Wal.WalRecord) : 24 ≤ r.totLen := by unfold Spec.Wal.WalRecord.totLen; omega
+
+theorem parseXLogRecord_hdr (r : Spec.Wal.WalRecord) (hr : r.WF) (tail : Bytes) (lsn magic : Nat) :
+    parseXLogRecord (encRecHeader r ++ tail) lsn magic =
+      (do let blocks ← (if r.totLen > 24 && r.totLen ≤ (encRecHeader r ++ tail).length then do
+                          let body ← slice (encRecHeader r ++ tail) 24 r.totLen
+                          parseBlockRefsFor body magic
+                        else pure [] : M (List BlockRef))
+          pure (some (recM lsn r blocks), r.totLen)) := by
+  obtain ⟨hxid, hprev, hinfo, hrmid, hcrc, _, _, _, _, _, htot⟩ := hr
+  have h24 := totLen_ge r
+  have hlen := encRecHeader_length r
+  let t4 := le 4 r.crc ++ tail
+  let t3 := UInt8.ofNat r.info :: UInt8.ofNat r.rmid :: 0 :: 0 :: t4
+  have e0 : encRecHeader r ++ tail = [] ++ (le 4 r.totLen ++ (le 4 r.xid ++ (le 8 r.prev ++ t3))) := by
+    simp [encRecHeader, List.append_assoc, t3, t4]
+  have e1 : encRecHeader r ++ tail = le 4 r.totLen ++ (le 4 r.xid ++ (le 8 r.prev ++ t3)) := by rw [e0]; rfl
+  have e2 : encRecHeader r ++ tail = (le 4 r.totLen ++ le 4 r.xid) ++ (le 8 r.prev ++ t3) := by rw [e0]; simp
+  have e3 : encRecHeader r ++ tail = (le 4 r.totLen ++ le 4 r.xid ++ le 8 r.prev) ++ (UInt8.ofNat r.info :: (UInt8.ofNat r.rmid :: 0 :: 0 :: t4)) := by
+    rw [e0]; simp [t3]
+  have e4 : encRecHeader r ++ tail = (le 4 r.totLen ++ le 4 r.xid ++ le 8 r.prev ++ [UInt8.ofNat r.info]) ++ (UInt8.ofNat r.rmid :: (0 :: 0 :: t4)) := by
+    rw [e0]; simp [t3]
+  have e5 : encRecHeader r ++ tail = (le 4 r.totLen ++ le 4 r.xid ++ le 8 r.prev ++ [UInt8.ofNat r.info, UInt8.ofNat r.rmid, 0, 0]) ++ (le 4 r.crc ++ tail) := by
+    rw [e0]; simp [t3, t4]
+  unfold parseXLogRecord
+  rw [if_neg (by simp only [List.length_append]; omega)]
+  rw [show uN 4 (encRecHeader r ++ tail) 0 = .ok r.totLen by rw [e0]; exact uN_mid 4 _ _ _ _ rfl (by omega)]
+  simp only [ok_bind]
+  rw [if_neg (by simp only [Bool.or_eq_true, decide_eq_true_eq]; omega)]
+  rw [show uN 4 (encRecHeader r ++ tail) 4 = .ok r.xid by rw [e1]; exact uN_mid 4 _ _ _ _ (by simp) (by omega),
+      show uN 8 (encRecHeader r ++ tail) 8 = .ok r.prev by rw [e2]; exact uN_mid 8 _ _ _ _ (by simp) (by omega),
+      show idx (encRecHeader r ++ tail) 16 = .ok (UInt8.ofNat r.info) by rw [e3]; exact idx_mid _ _ _ _ (by simp),
+      show idx (encRecHeader r ++ tail) 17 = .ok (UInt8.ofNat r.rmid) by rw [e4]; exact idx_mid _ _ _ _ (by simp),
+      show uN 4 (encRecHeader r ++ tail) 20 = .ok r.crc by rw [e5]; exact uN_mid 4 _ _ _ _ (by simp) (by omega)]
+  simp only [ok_bind, ofNat_toNat _ hinfo, ofNat_toNat _ hrmid]
+  rfl
+
+theorem blocks_nil_of_totLen (r : Spec.Wal.WalRecord) (h : r.totLen = 24) : r.blocks = [] := by
+  cases hb : r.blocks with
+  | nil => rfl
+  | cons b bs =>
+    have := encBlockHdr_length b
+    have hpos : (encBlockHdr b).length ≤ (encBody r).length := by
+      simp only [encBody, Spec.Wal.encHeaders, hb, List.flatMap_cons, List.length_append]; omega
+    unfold Spec.Wal.WalRecord.totLen at h
+    omega
+
+/-- a record that lies wholly in the buffer is reported with all its fields and its block references, and
+consumed with its total length -/
+theorem parseXLogRecord_whole (r : Spec.Wal.WalRecord) (hr : r.WF) (rest : Bytes) (lsn magic : Nat) :
+    parseXLogRecord (encRecord r ++ rest) lsn magic = .ok (some (recM lsn r (viewsM none r.blocks)), r.totLen) := by
+  have hlen := encRecHeader_length r
+  have htl : r.totLen = 24 + (encBody r).length := rfl
+  rw [show encRecord r ++ rest = encRecHeader r ++ (encBody r ++ rest) by simp [encRecord]]
+  rw [parseXLogRecord_hdr r hr]
+  by_cases h : r.totLen > 24
+  · rw [if_pos (by simp only [Bool.and_eq_true, decide_eq_true_eq, List.length_append]; omega)]
+    rw [slice_ok _ _ _ (by simp only [List.length_append]; omega) (by omega)]
+    simp only [ok_bind]
+    have hb : ((encRecHeader r ++ (encBody r ++ rest)).take r.totLen).drop 24 = encBody r := by
+      rw [htl, ← hlen, List.take_length_add_append, List.drop_left' rfl, List.take_left' rfl]
+    rw [hb, parseBlockRefsFor_enc r hr.2.2.2.2.2.1 magic]
+    rfl
+  · rw [if_neg (by simp only [Bool.and_eq_true, decide_eq_true_eq]; omega)]
+    rw [blocks_nil_of_totLen r (by have := totLen_ge r; omega)]
+    rfl
+
+/-- a record cut by the end of the buffer after at least its header is reported without block references
+(known finding C17-crosspage-blocks), and still consumed with its total length -/
+theorem parseXLogRecord_cut (r : Spec.Wal.WalRecord) (hr : r.WF) (n : Nat) (h24 : 24 ≤ n) (hn : n < r.totLen)
+    (lsn magic : Nat) :
+    parseXLogRecord ((encRecord r).take n) lsn magic = .ok (some (recM lsn r []), r.totLen) := by
+  have hlen := encRecHeader_length r
+  rw [show (encRecord r).take n = encRecHeader r ++ (encBody r).take (n - 24) by
+        rw [encRecord, List.take_append, hlen, List.take_of_length_le (by omega)]]
+  rw [parseXLogRecord_hdr r hr]
+  rw [if_neg (by
+    simp only [Bool.and_eq_true, decide_eq_true_eq, List.length_append, List.length_take, hlen]; omega)]
+  rfl
+
+theorem le4_not_zero (v : Nat) (h0 : 0 < v) (h : v < 2 ^ 32) (t : Bytes) : isZeroPadding (le 4 v ++ t) = false := by
+  unfold isZeroPadding
+  have h4 : (le 4 v ++ t).take 8 = le 4 v ++ t.take 4 := by
+    rw [List.take_append, le_length, List.take_of_length_le (by simp)]
+  rw [h4, List.all_append]
+  have : (le 4 v).all (· == 0) = false := by
+    simp only [le, List.all_cons, List.all_nil, Bool.and_true, Bool.and_eq_false_iff, beq_eq_false_iff_ne, ne_eq]
+    by_cases h1 : v % 256 = 0
+    · by_cases h2 : v / 256 % 256 = 0
+      · by_cases h3 : v / 256 / 256 % 256 = 0
+        · right; right; right
+          intro hc
+          have := congrArg UInt8.toNat hc
+          rw [ofNat_toNat _ (by omega)] at this
+          simp at this; omega
+        · right; right; left
+          intro hc
+          have := congrArg UInt8.toNat hc
+          rw [ofNat_toNat _ (by omega)] at this
+          simp at this; omega
+      · right; left
+        intro hc
+        have := congrArg UInt8.toNat hc
+        rw [ofNat_toNat _ (by omega)] at this
+        simp at this; omega
+    · left
+      intro hc
+      have := congrArg UInt8.toNat hc
+      rw [ofNat_toNat _ (by omega)] at this
+      simp at this; omega
+  rw [this]; rfl
+
+theorem align8_eq (n : Nat) : align8 n = Spec.Wal.align8 n := by
+  unfold align8 Spec.Wal.align8
+  have := andNot_mask (n + 7) 3
+  simpa using this
+
+theorem pad8_length (b : Bytes) : (pad8 b).length = Spec.Wal.align8 b.length := by
+  simp only [pad8, List.length_append, zeros_length, Spec.Wal.align8]; omega
+
+theorem encRecord_length (r : Spec.Wal.WalRecord) : (encRecord r).length = r.totLen := by
+  simp [encRecord, encRecHeader, Spec.Wal.WalRecord.totLen]; omega
+
+/-! ## The record loop on an encoded page -/
+
+open PgVerif.Spec.Wal (Trailer pageHdrBytes)
+
+/-- the records the loop must report from in-page position `pos` on: the whole records with their block
+references, then a record cut by the page end without them -/
+def loopRecs (pa : Nat) : Nat → List Spec.Wal.WalRecord → Trailer → List Record
+  | pos, [], .cut r _ => [recM ((pa + pos) % 2 ^ 64) r []]
+  | _, [], _ => []
+  | pos, r :: rs, tr =>
+    recM ((pa + pos) % 2 ^ 64) r (viewsM none r.blocks) :: loopRecs pa (pos + Spec.Wal.align8 r.totLen) rs tr
+
+theorem encRecord_le4 (r : Spec.Wal.WalRecord) :
+    encRecord r = le 4 r.totLen ++ (le 4 r.xid ++ (le 8 r.prev ++ UInt8.ofNat r.info :: UInt8.ofNat r.rmid :: 0 :: 0 :: (le 4 r.crc ++ encBody r))) := by
+  simp [encRecord, encRecHeader, List.append_assoc]
+
+theorem recordLoop_end (data : Bytes) (pa magic fuel pos : Nat) (h : data.length < pos + 24) :
+    recordLoop data pa magic fuel pos = .ok [] := by
+  cases fuel with
+  | zero => rfl
+  | succ fuel => unfold recordLoop; rw [if_neg (by omega)]; rfl
+
+theorem recordLoop_trailer (pre : Bytes) (tr : Trailer) (htr : tr.WF) (pa magic fuel : Nat) (hf : 1 ≤ fuel) :
+    recordLoop (pre ++ tr.bytes) pa magic fuel pre.length = .ok (loopRecs pa pre.length [] tr) := by
+  cases fuel with
+  | zero => omega
+  | succ fuel =>
+    cases tr with
+    | short bs =>
+      exact recordLoop_end _ _ _ _ _ (by simp only [Trailer.bytes, List.length_append]; have : bs.length < 24 := htr; omega)
+    | zeros bs =>
+      unfold recordLoop
+      split
+      · rw [sliceFrom_ok _ _ (by simp)]
+        simp only [ok_bind, List.drop_left', Trailer.bytes]
+        have hz : isZeroPadding bs = true := htr
+        rw [if_pos hz]; rfl
+      · rfl
+    | cut r n =>
+      obtain ⟨hr, h24, hn⟩ := htr
+      have hlen := encRecord_length r
+      unfold recordLoop
+      rw [if_pos (by simp only [Trailer.bytes, List.length_append, List.length_take]; omega)]
+      rw [sliceFrom_ok _ _ (by simp)]
+      simp only [ok_bind, List.drop_left', Trailer.bytes]
+      have hz : isZeroPadding ((encRecord r).take n) = false := by
+        rw [encRecord_le4, List.take_append, le_length, List.take_of_length_le (by simp; omega)]
+        exact le4_not_zero _ (by have := totLen_ge r; omega) (by have := hr.2.2.2.2.2.2.2.2.2.2; omega) _
+      rw [hz]
+      simp only [Bool.false_eq_true, if_false]
+      rw [parseXLogRecord_cut r hr n h24 hn]
+      simp only [ok_bind]
+      rw [if_neg (by simp only [beq_iff_eq]; have := totLen_ge r; omega)]
+      rw [recordLoop_end _ _ _ _ _ (by
+        rw [align8_eq]; simp only [List.length_append, List.length_take, Spec.Wal.align8]; omega)]
+      rfl
+
+
+/-- **Record-loop invariant.**  From an 8-aligned in-page position `pre.length`, with the rest of the page
+being whole MAXALIGN-padded records followed by a trailer, the loop reports exactly those records, each at
+`(pageAddr + position) mod 2^64`, with all header fields and block references; then the record cut by the
+page end (without block references), if there is one. -/
+theorem recordLoop_enc (rs : List Spec.Wal.WalRecord) (hrs : ∀ r ∈ rs, r.WF) (tr : Trailer) (htr : tr.WF)
+    (pre : Bytes) (hpre : pre.length % 8 = 0) (pa magic fuel : Nat) (hf : rs.length + 1 ≤ fuel) :
+    recordLoop (pre ++ ((rs.flatMap fun r => pad8 (encRecord r)) ++ tr.bytes)) pa magic fuel pre.length =
+      .ok (loopRecs pa pre.length rs tr) := by
+  induction rs generalizing pre fuel with
+  | nil => simpa using recordLoop_trailer pre tr htr pa magic fuel (by simpa using hf)
+  | cons r rs ih =>
+    cases fuel with
+    | zero => omega
+    | succ fuel =>
+      have hr := hrs r (by simp)
+      have hlen := encRecord_length r
+      have hpl := pad8_length (encRecord r)
+      have h24 := totLen_ge r
+      rw [hlen] at hpl
+      simp only [List.flatMap_cons, List.append_assoc]
+      unfold recordLoop
+      rw [if_pos (by simp only [List.length_append, hpl, Spec.Wal.align8]; omega)]
+      rw [sliceFrom_ok _ _ (by simp)]
+      simp only [ok_bind, List.drop_left']
+      have hsplit : pad8 (encRecord r) ++ ((rs.flatMap fun r => pad8 (encRecord r)) ++ tr.bytes) =
+          encRecord r ++ (zeros (Spec.Wal.align8 (encRecord r).length - (encRecord r).length) ++
+            ((rs.flatMap fun r => pad8 (encRecord r)) ++ tr.bytes)) := by
+        simp [pad8, List.append_assoc]
+      have hz : isZeroPadding (pad8 (encRecord r) ++ ((rs.flatMap fun r => pad8 (encRecord r)) ++ tr.bytes)) = false := by
+        rw [hsplit, encRecord_le4]
+        simp only [List.append_assoc]
+        exact le4_not_zero _ (by omega) (by have := hr.2.2.2.2.2.2.2.2.2.2; omega) _
+      rw [hz]
+      simp only [Bool.false_eq_true, if_false]
+      rw [hsplit, parseXLogRecord_whole r hr]
+      simp only [ok_bind]
+      rw [if_neg (by simp only [beq_iff_eq]; omega)]
+      have hnext : align8 (pre.length + r.totLen) = (pre ++ pad8 (encRecord r)).length := by
+        rw [align8_eq, List.length_append, hpl]; simp only [Spec.Wal.align8]; omega
+      rw [hnext, ← hsplit]
+      have := ih (fun r' h' => hrs r' (by simp [h'])) (pre ++ pad8 (encRecord r))
+        (by rw [List.length_append, hpl]; simp only [Spec.Wal.align8]; omega) fuel (by simpa using hf)
+      rw [List.append_assoc] at this
+      rw [this]
+      simp only [ok_bind, pure_eq_ok, loopRecs, List.length_append, hpl]
+
+/-! ## parseWALPage on an encoded page -/
+
+theorem pageHdrBytes_length (magic info tli addr rem : Nat) (ext : Bytes) :
+    (pageHdrBytes magic info tli addr rem ext).length = 24 + ext.length := by
+  simp [pageHdrBytes]; omega
+
+theorem parsePageHeader_enc (magic info tli addr rem : Nat) (ext tail : Bytes)
+    (hm : magic < 2 ^ 16) (hi : info < 2 ^ 16) (ht : tli < 2 ^ 32) (ha : addr < 2 ^ 64) (hr : rem < 2 ^ 32) :
+    ∃ h, parsePageHeader (pageHdrBytes magic info tli addr rem ext ++ tail) = .ok h ∧
+      h.magic = magic ∧ h.info = info ∧ h.pageAddr = addr ∧ h.remLen = rem := by
+  let t5 := zeros 4 ++ ext ++ tail
+  have e0 : pageHdrBytes magic info tli addr rem ext ++ tail =
+      [] ++ (le 2 magic ++ (le 2 info ++ (le 4 tli ++ (le 8 addr ++ (le 4 rem ++ t5))))) := by
+    simp [pageHdrBytes, List.append_assoc, t5]
+  have e1 : pageHdrBytes magic info tli addr rem ext ++ tail =
+      le 2 magic ++ (le 2 info ++ (le 4 tli ++ (le 8 addr ++ (le 4 rem ++ t5)))) := by rw [e0]; rfl
+  have e2 : pageHdrBytes magic info tli addr rem ext ++ tail =
+      (le 2 magic ++ le 2 info) ++ (le 4 tli ++ (le 8 addr ++ (le 4 rem ++ t5))) := by rw [e0]; simp
+  have e3 : pageHdrBytes magic info tli addr rem ext ++ tail =
+      (le 2 magic ++ le 2 info ++ le 4 tli) ++ (le 8 addr ++ (le 4 rem ++ t5)) := by rw [e0]; simp
+  have e4 : pageHdrBytes magic info tli addr rem ext ++ tail =
+      (le 2 magic ++ le 2 info ++ le 4 tli ++ le 8 addr) ++ (le 4 rem ++ t5) := by rw [e0]; simp
+  unfold parsePageHeader
+  rw [show uN 2 (pageHdrBytes magic info tli addr rem ext ++ tail) 0 = .ok magic by rw [e0]; exact uN_mid 2 _ _ _ _ rfl (by omega),
+      show uN 2 (pageHdrBytes magic info tli addr rem ext ++ tail) 2 = .ok info by rw [e1]; exact uN_mid 2 _ _ _ _ (by simp) (by omega),
+      show uN 4 (pageHdrBytes magic info tli addr rem ext ++ tail) 4 = .ok tli by rw [e2]; exact uN_mid 4 _ _ _ _ (by simp) (by omega),
+      show uN 8 (pageHdrBytes magic info tli addr rem ext ++ tail) 8 = .ok addr by rw [e3]; exact uN_mid 8 _ _ _ _ (by simp) (by omega),
+      show uN 4 (pageHdrBytes magic info tli addr rem ext ++ tail) 16 = .ok rem by rw [e4]; exact uN_mid 4 _ _ _ _ (by simp) (by omega)]
+  simp only [ok_bind]
+  split
+  · rename_i hc
+    simp only [Bool.and_eq_true, decide_eq_true_eq] at hc
+    rw [uN_ok 8 _ 24 (by omega), uN_ok 4 _ 32 (by omega), uN_ok 4 _ 36 (by omega)]
+    exact ⟨_, rfl, rfl, rfl, rfl, rfl⟩
+  · exact ⟨_, rfl, rfl, rfl, rfl, rfl⟩
+
+theorem flatMap_pad8_length (rs : List Spec.Wal.WalRecord) :
+    rs.length ≤ (rs.flatMap fun r => pad8 (encRecord r)).length := by
+  induction rs with
+  | nil => simp
+  | cons r rs ih =>
+    have h1 := pad8_length (encRecord r)
+    rw [encRecord_length] at h1
+    have h2 := totLen_ge r
+    simp only [List.flatMap_cons, List.length_append, List.length_cons, h1, Spec.Wal.align8]
+    omega
+
+/-- the page header, the continuation area, then whole records and a trailer: parseWALPage reports the records -/
+theorem parseWALPage_enc (magic info tli addr rem : Nat) (ext cont : Bytes)
+    (rs : List Spec.Wal.WalRecord) (tr : Trailer)
+    (hm : magic < 2 ^ 16) (hi : info < 2 ^ 16) (ht : tli < 2 ^ 32) (ha : addr < 2 ^ 64) (hr : rem < 2 ^ 32)
+    (hvalid : isValidMagic magic = true)
+    (hext : ext.length = if info &&& 0x0002 != 0 then 16 else 0)
+    (hcont : cont.length = if info &&& 0x0001 != 0 && rem > 0 then Spec.Wal.align8 rem else 0)
+    (hrs : ∀ r ∈ rs, r.WF) (htr : tr.WF) :
+    parseWALPage (pageHdrBytes magic info tli addr rem ext ++ cont ++ ((rs.flatMap fun r => pad8 (encRecord r)) ++ tr.bytes)) =
+      .ok (some (loopRecs addr (24 + ext.length + cont.length) rs tr)) := by
+  have hl := pageHdrBytes_length magic info tli addr rem ext
+  unfold parseWALPage
+  rw [if_neg (by simp only [List.length_append]; omega)]
+  obtain ⟨h, hh, h1, h2, h3, h4⟩ := parsePageHeader_enc magic info tli addr rem ext
+    (cont ++ ((rs.flatMap fun r => pad8 (encRecord r)) ++ tr.bytes)) hm hi ht ha hr
+  rw [List.append_assoc, hh]
+  simp only [ok_bind, h1, hvalid, Bool.not_true, Bool.false_eq_true, if_false, h3]
+  have hstart : startPos h = (pageHdrBytes magic info tli addr rem ext ++ cont).length := by
+    unfold startPos headerSize
+    rw [h2, h4, List.length_append, hl, hext, hcont]
+    by_cases hl2 : (info &&& 0x0002 != 0) = true <;> by_cases hc : (info &&& 0x0001 != 0 && decide (rem > 0)) = true <;>
+      simp only [hl2, hc, if_true, if_false, Bool.false_eq_true, align8_eq, Spec.Wal.align8] <;> omega
+  have hfl := flatMap_pad8_length rs
+  rw [hstart, ← List.append_assoc]
+  rw [recordLoop_enc rs hrs tr htr _ (by
+        rw [List.length_append, hl, hext, hcont]
+        by_cases hl2 : (info &&& 0x0002 != 0) = true <;> by_cases hc : (info &&& 0x0001 != 0 && decide (rem > 0)) = true <;>
+          simp only [hl2, hc, if_true, if_false, Bool.false_eq_true, Spec.Wal.align8] <;> omega)
+      addr magic _ (by simp only [List.length_append, hl]; omega)]
+  simp only [ok_bind, pure_eq_ok, List.length_append, hl]
+
+/-- a page whose continuation data (rem_len) reaches to within 24 bytes of its end holds no record start -/
+theorem parseWALPage_allcont (magic info tli addr rem : Nat) (ext tail : Bytes)
+    (hm : magic < 2 ^ 16) (hi : info < 2 ^ 16) (ht : tli < 2 ^ 32) (ha : addr < 2 ^ 64) (hr : rem < 2 ^ 32)
+    (hvalid : isValidMagic magic = true) (hflag : (info &&& 0x0001 != 0) = true)
+    (hext : ext.length = if info &&& 0x0002 != 0 then 16 else 0)
+    (hfull : 24 + ext.length + tail.length < 24 + ext.length + Spec.Wal.align8 rem + 24) :
+    parseWALPage (pageHdrBytes magic info tli addr rem ext ++ tail) = .ok (some []) := by
+  have hl := pageHdrBytes_length magic info tli addr rem ext
+  unfold parseWALPage
+  rw [if_neg (by simp only [List.length_append]; omega)]
+  obtain ⟨h, hh, h1, h2, h3, h4⟩ := parsePageHeader_enc magic info tli addr rem ext tail hm hi ht ha hr
+  rw [hh]
+  simp only [ok_bind, h1, hvalid, Bool.not_true, Bool.false_eq_true, if_false]
+  rw [recordLoop_end _ _ _ _ _ (by
+    unfold startPos headerSize
+    rw [h2, h4, hflag]
+    simp only [List.length_append, hl, hext, Bool.true_and, align8_eq] at hfull ⊢
+    by_cases hrem : rem > 0 <;> by_cases hl2 : (info &&& 0x0002 != 0) = true <;>
+      simp only [hrem, hl2, decide_true, decide_false, if_true, if_false, Bool.false_eq_true, Spec.Wal.align8] at hfull ⊢ <;> omega)]
+  rfl
+
+/-! ## Files as lists of pages -/
+
+theorem fileRecs_page (pg : Bytes) (h : pg.length = 8192) : fileRecs pg = pageRecs pg := by
+  unfold fileRecs
+  rw [h]
+  simp only [pagesPure, h]
+  rw [if_pos (by omega), if_neg (by omega), List.append_nil, List.drop_zero, Nat.zero_add, ← h, List.take_length]
+
+theorem fileRecs_short (t : Bytes) (h : t.length < 8192) : fileRecs t = [] := by
+  unfold fileRecs
+  simp only [pagesPure]
+  rw [if_neg (by omega)]
+
+theorem fileRecs_pages (pgs : List Bytes) (h : ∀ p ∈ pgs, p.length = 8192) (tail : Bytes) (ht : tail.length < 8192) :
+    fileRecs (pgs.flatten ++ tail) = pgs.flatMap pageRecs := by
+  induction pgs with
+  | nil => simpa using fileRecs_short tail ht
+  | cons p ps ih =>
+    have hp := h p (by simp)
+    rw [List.flatten_cons, List.append_assoc, fileRecs_append p _ 1 (by omega), fileRecs_page p hp,
+      ih (fun q hq => h q (by simp [hq]))]
+    rfl
+
+theorem rd_zeros (n m : Nat) : rd n (zeros m) = 0 := by
+  induction n generalizing m with
+  | zero => rfl
+  | succ n ih =>
+    cases m with
+    | zero => rfl
+    | succ m =>
+      have : zeros (m + 1) = 0 :: zeros m := rfl
+      rw [this, rd, ih]; rfl
+
+theorem drop_zeros (k m : Nat) : (zeros m).drop k = zeros (m - k) := by simp [zeros]
+
+/-- a never-written (all-zero) page is skipped -/
+theorem pageRecs_zeros (m : Nat) (hm : 24 ≤ m) : pageRecs (zeros m) = [] := by
+  unfold pageRecs parseWALPage
+  rw [if_neg (by simp; omega)]
+  unfold parsePageHeader
+  rw [uN_ok 2 _ 0 (by simp; omega), uN_ok 2 _ 2 (by simp; omega), uN_ok 4 _ 4 (by simp; omega),
+    uN_ok 8 _ 8 (by simp; omega), uN_ok 4 _ 16 (by simp; omega)]
+  simp only [ok_bind, drop_zeros, rd_zeros]
+  rfl
 
 end PgVerif.Proofs.Wal
